@@ -64,7 +64,7 @@ Proof.
 Qed.
 
 (* the refresh request of C20_refuted as an operation of the system model *)
-Definition c20_refresh_op : op := OpToken GRefreshToken (mkTReq (mkCred 1 true) no_bind "" 0 "" 35 PkEmpty 0 HgOk BaApprove [] AsNone).
+Definition c20_refresh_op : op := OpToken GRefreshToken (mkTReq (mkCred 1 true) no_bind "" 0 "" 35 PkEmpty 0 HgOk BaApprove [] AsNone None).
 
 (* ---- signatures: an element qualified [config] (or [wide-burst]) is never predicted ---- *)
 Lemma qualified_never_predicted a b :
